@@ -15,6 +15,9 @@ pub struct EncCfg {
     pub strf: Cfm,
     /// further crypt filters listed in CF under their own names (selected only by per-stream Crypt overrides)
     pub extra: Vec<(Vec<u8>, Cfm)>,
+    /// when set, the identity transformation is not selected by the predefined name Identity but by a crypt filter
+    /// of this name listed in CF with /CFM /None (ISO 32000-1 Table 25)
+    pub identity_name: Option<Vec<u8>>,
     pub encrypt_metadata: bool,
     pub p: i32,
     /// prepared passwords (PDFDoc bytes for R<=4, SASLprep UTF-8 for R>=5)
@@ -96,9 +99,10 @@ pub fn encdict_obj(cfg: &EncCfg, d: &EncDict) -> RObj {
                 cf.push((k(nm), RObj::Dict(vec![(k("Type"), name("CryptFilter")), (k("CFM"), name(cfm_name(c))), (k("AuthEvent"), name("DocOpen")), (k("Length"), RObj::Int(if c == Cfm::AesV3 { 32 } else { 16 }))])));
             }
         };
-        let nm = |c: Cfm| -> &'static str {
+        let idn: String = cfg.identity_name.as_ref().map(|n| String::from_utf8_lossy(n).to_string()).unwrap_or_else(|| "Identity".into());
+        let nm = |c: Cfm| -> &str {
             match c {
-                Cfm::Identity => "Identity",
+                Cfm::Identity => &idn,
                 Cfm::Rc4 => "FRC4",
                 Cfm::AesV2 => "StdCF",
                 Cfm::AesV3 => "StdCF",
@@ -106,6 +110,9 @@ pub fn encdict_obj(cfg: &EncCfg, d: &EncDict) -> RObj {
         };
         add(nm(cfg.stm), cfg.stm, &mut cf);
         add(nm(cfg.strf), cfg.strf, &mut cf);
+        if cfg.identity_name.is_some() && (cfg.stm == Cfm::Identity || cfg.strf == Cfm::Identity) {
+            cf.push((k(&idn), RObj::Dict(vec![(k("Type"), name("CryptFilter")), (k("CFM"), name("None"))])));
+        }
         for (n, c) in &cfg.extra {
             add(&String::from_utf8_lossy(n), *c, &mut cf);
         }
@@ -170,6 +177,7 @@ pub fn stream_cfm(cfg: &EncCfg, sd: &[(Vec<u8>, RObj)]) -> Cfm {
             return *c;
         }
     }
+    // (a named identity filter, the predefined Identity and an unknown name all mean: not encrypted)
     Cfm::Identity
 }
 
@@ -212,6 +220,36 @@ pub fn encrypt_doc(doc: &RDoc, cfg: &EncCfg, file_key: &[u8], r: &mut Rng, skip:
         }
     }
     out
+}
+
+/// AES ciphertexts as ISO 32000-1 7.6.2 defines them: a 16-byte initialisation vector followed by the padded data,
+/// where padding is always added - an empty string or stream is 32 bytes long once encrypted. Returns the first
+/// string or stream of an encrypted document that has another shape.
+pub fn aes_shape_violation(doc: &RDoc, cfg: &EncCfg, skip: Option<(u32, u16)>) -> Option<String> {
+    let aes = |c: Cfm| matches!(c, Cfm::AesV2 | Cfm::AesV3);
+    for (id, o) in &doc.objects {
+        if Some(*id) == skip || is_xref(o) || (is_metadata(o) && !cfg.encrypt_metadata) {
+            continue;
+        }
+        let mut bad: Option<usize> = None;
+        if aes(cfg.strf) {
+            let mut copy = o.clone();
+            map_strings(&mut copy, &mut |s| {
+                if s.len() < 32 || s.len() % 16 != 0 {
+                    bad.get_or_insert(s.len());
+                }
+            });
+        }
+        if let Some(n) = bad {
+            return Some(format!("a string of object {} {} is {} bytes long under an AES filter (want 16-byte IV + whole blocks, at least 32)", id.0, id.1, n));
+        }
+        if let RObj::Stream(sd, data) = o {
+            if aes(stream_cfm(cfg, sd)) && (data.len() < 32 || data.len() % 16 != 0) {
+                return Some(format!("stream {} {} is {} bytes long under an AES filter (want 16-byte IV + whole blocks, at least 32)", id.0, id.1, data.len()));
+            }
+        }
+    }
+    None
 }
 
 pub fn decrypt_doc(doc: &RDoc, cfg: &EncCfg, file_key: &[u8], skip: Option<(u32, u16)>) -> Result<RDoc, String> {
@@ -306,7 +344,7 @@ pub fn parse_encdict(e: &[(Vec<u8>, RObj)], id0: &[u8]) -> Result<(EncCfg, EncDi
             }
         }
     }
-    let cfg = EncCfg { v, r, length_bits, stm: filt("StmF")?, strf: filt("StrF")?, extra, encrypt_metadata, p: p32, user_pw: vec![], owner_pw: vec![] };
+    let cfg = EncCfg { v, r, length_bits, stm: filt("StmF")?, strf: filt("StrF")?, extra, identity_name: None, encrypt_metadata, p: p32, user_pw: vec![], owner_pw: vec![] };
     let d = EncDict { v, r, length_bits, p: p32, encrypt_metadata, o: s("O"), u: s("U"), oe: s("OE"), ue: s("UE"), perms: s("Perms"), id0: id0.to_vec() };
     Ok((cfg, d))
 }
